@@ -14,7 +14,7 @@ from frequenz.sdk.timeseries.formula_engine._formula_engine import FormulaBuilde
 ID = "C06"
 LEVEL = "model_checking"
 install = fx.install
-FUNCTIONS = ["FormulaEvaluator.apply", "FormulaEvaluator._synchronize_metric_timestamps", "MetricFetcher.fetch_next/apply", "FormulaEngine._run/new_receiver",
+FUNCTIONS = ["FormulaEvaluator.apply", "FormulaEvaluator._synchronize_metric_timestamps", "MetricFetcher.fetch_next/apply", "FormulaEngine._run/new_receiver", "FormulaEngine3Phase._run",
              "Adder.apply", "frequenz.channels Broadcast receivers (third party, executed as is)"]
 SHIMS = fx.SHIMS + ["timestamps are proxy datetimes (Int microseconds) used as keys of the evaluator's own dict (constant hash, equality decided by the solver)"]
 ASSUMPTIONS = [
@@ -24,8 +24,8 @@ ASSUMPTIONS = [
     "one stream delivered only after all the others are exhausted",
     "other interleavings that respect per-stream FIFO order cannot change what blocking FIFO reads return (Kahn-network argument): stated, not checked",
 ]
-BOUNDS = {"quick": "2 and 3 streams, K = 4 samples per stream, 4 delivery modes", "thorough": "4 streams, K = 5, offsets in [0, 3]"}
-OUTSIDE = "receiver overflow (capacity 50 never reached); FormulaEngine3Phase; more streams"
+BOUNDS = {"quick": "2 and 3 streams, K = 4 samples per stream, 4 delivery modes; 3-phase engine with per-phase offsets", "thorough": "4 streams, K = 5, offsets in [0, 3]"}
+OUTSIDE = "receiver overflow (capacity 50 never reached); more streams"
 BUDGET = {"quick": 300, "thorough": 600}
 PER = timedelta(seconds=1)
 
@@ -107,11 +107,61 @@ def make(ns, K, omax=2, reach=False):
     return fn
 
 
+def make_3phase(K, omax=2, reach=False):
+    """FormulaEngine3Phase zipping three per-phase engines whose input streams begin at different timestamps."""
+    from frequenz.sdk.timeseries.formula_engine._formula_engine import FormulaEngine, FormulaEngine3Phase
+
+    def fn(ex):
+        offs = [ex.int_(f"o{i}", 0, omax) for i in range(3)]
+        vals = [[ex.real(f"v{i}_{k}") for k in range(K)] for i in range(3)]
+
+        async def scenario():
+            chans = [Broadcast[Sample[Power]](name=f"c{i}") for i in range(3)]
+            engs = [FormulaEngine.from_receiver(f"phase{i}", chans[i].new_receiver(limit=100), Power.from_watts) for i in range(3)]
+            e3 = FormulaEngine3Phase("three", Power.from_watts, (engs[0], engs[1], engs[2]))
+            rx = e3.new_receiver(max_size=100)
+            await asyncio.sleep(0.01)
+            snd = [c.new_sender() for c in chans]
+            for i in range(3):
+                for k in range(K):
+                    await snd[i].send(Sample(TS + (offs[i] + k) * PER, Power.from_watts(vals[i][k])))
+            outs = []
+            while True:
+                try:
+                    outs.append(await asyncio.wait_for(rx.receive(), 5.0))
+                except asyncio.TimeoutError:
+                    break
+            await e3._stop()
+            for e in engs:
+                await e._stop()
+            return outs
+        outs = fx.run_loop(scenario())
+        if reach:
+            if outs:
+                ex.check(False, "reach")
+            return
+        o = [ex.realize_int(EI(x)) for x in offs]
+        exp_n = K - (max(o) - min(o))
+        ex.check(len(outs) == max(0, exp_n), f"{len(outs)} 3-phase samples emitted, expected {exp_n} (offsets {o})")
+        for m, out in enumerate(outs):
+            k = ex.realize_int((EI(out.timestamp) - core.dt_us(TS)) / 1_000_000)
+            ex.check(k == max(o) + m, f"3-phase sample {m} is stamped T0+{k}s, expected T0+{max(o) + m}s")
+            for i, v in enumerate((out.value_p1, out.value_p2, out.value_p3)):
+                idx = k - o[i]
+                if not 0 <= idx < K:
+                    ex.check(False, f"3-phase sample stamped T0+{k}s contains a phase-{i + 1} value although that phase has no input stamped so")
+                    continue
+                ex.check(v is not None and bool(v.base_value == vals[i][idx]) if ex.concrete else (v is not None and E(v.base_value) == E(vals[i][idx])),
+                         f"3-phase sample: phase-{i + 1} value is not the one stamped with the sample's timestamp (offsets {o})")
+    return fn
+
+
 def instances(tier):
     I = Instance
     out = [I("reach:2x3", "make", (2, 3, 2, True), "reachability twin", budget_s=60, validate_every=0),
            I("2 streams K4", "make", (2, 4), "2 streams, 4 samples each, offsets 0..2", budget_s=200, validate_every=20),
-           I("3 streams K4", "make", (3, 4), "3 streams, 4 samples each, offsets 0..2", budget_s=300, validate_every=50)]
+           I("3 streams K4", "make", (3, 4), "3 streams, 4 samples each, offsets 0..2", budget_s=300, validate_every=50),
+           I("3phase K4", "make_3phase", (4,), "FormulaEngine3Phase over three per-phase engines whose inputs begin at offsets 0..2", budget_s=200, validate_every=5)]
     if tier != "quick":
         out.append(I("3 streams K5 o3", "make", (3, 5, 3), "3 streams, 5 samples, offsets 0..3", budget_s=600, validate_every=100))
         out.append(I("4 streams K5", "make", (4, 5, 2), "4 streams, 5 samples, offsets 0..2", budget_s=900, validate_every=200))
